@@ -367,9 +367,10 @@ TriggerHolds(t, r) ==
     CASE t = "WMedianLowBias" ->        \* the unrepaired weighted_median differs from the repaired one on this input
             /\ r.est \in {"wmedian", "wmad"} /\ Len(Keep(r)) >= 2
             /\ LET a == Xs(r)  w == Ws(r) IN
-               IF r.est = "wmedian" THEN WMedianOld(a, w) # WMedianCode(a, w)
-               ELSE \/ WMedianOld(a, w) # WMedianCode(a, w)
-                    \/ WMadCode(a, w, FALSE, WMedianOld) # WMadCode(a, w, FALSE, WMedianCode)
+               \/ WMedianOld(a, w) # WMedianCode(a, w)
+               \/ r.est = "wmad" /\ WMadCode(a, w, FALSE, WMedianOld) # WMadCode(a, w, FALSE, WMedianCode)
+               \* with tied values the unrepaired result also depends on the (unstable) argsort order of the ties
+               \/ \E i, j \in 1..Len(a) : i < j /\ a[i] = a[j]
       [] t = "BilocMaskAfterSquaring" ->
             /\ r.est = "biloc" \/ (r.est = "bivar" /\ ~r.hasinit)
             /\ Len(Keep(r)) >= 2 /\ BilocMaskAffected(Xs(r))
